@@ -5,8 +5,9 @@ import Ypv.Props.C08
 
 The evaluator model's `ctxUp` drops the last path section.  `pop_section`: the library's `pop()`
 (C08 object model) restores exactly the accumulated text of the steps before, when the popped section
-is a key or an index section.  It does NOT for an anchor section (`pop()` looks for the stand-alone
-rendering `&name` of the segment, the section is `[&name]`): finding C02-K5, kernel-checked below.
+is a key or an index section.  For an anchor section (`pop()` looks for the stand-alone rendering `&name`
+of the segment, the section is `[&name]`) it did not before /repo 8d0a378 (finding C02-K5); since that
+repair it leaves the canonical string of the steps before (`pop_section_anc`).
 -/
 namespace Ypv.Acc
 open Ypv Ypv.Sim Ypv.Search Ypv.Search.Rr
@@ -68,11 +69,104 @@ theorem pop_section (s0 : Sec) (r : List Sec) (s : Sec) (hok : ∀ x ∈ s0 :: (
   · rw [hs]
     simpa [SepOpt.isFslash] using render_last s hsok hna
 
-/-- **C02-K5**: an anchor section is not stripped — `YAMLPath("a") + "[&x]"`, then `pop()`: the text
-stays `a.[&x]`; and the very first section `[&x]` alone stays too. -/
-example : C08.popView (accObj [['a'], "[&x]".toList]) = .ok ((.anchor, .str ['x']), "a.[&x]".toList) := by
+/-! ### An anchor section (`[&name]`): finding C02-K5, repaired by /repo 8d0a378
+
+`pop()` looks for the stand-alone rendering `&name` (or `.&name`) of the popped segment at the end of
+the text; the section the evaluator appended is `[&name]`, so none of its three `endswith` tests
+succeeds.  Before the repair the text was then left as it was (the reported path of a `[parent()]`
+result still named the anchor); since the repair `pop()` rebuilds the text from the other segments
+(`C08.pop_respelled`). -/
+
+theorem cons_ne_concat {α : Type} (a b : α) (hab : a ≠ b) : ∀ E : List α, a :: E ≠ E ++ [b]
+  | [] => by simpa using hab
+  | e :: E => by
+    intro h
+    simp only [List.cons_append, List.cons.injEq] at h
+    obtain ⟨rfl, h⟩ := h
+    exact cons_ne_concat a b hab E h
+
+theorem suffix_of_endsWith {s suf : Str} (h : endsWith s suf = true) : suf <:+ s := by
+  simp only [endsWith, Bool.decide_and, Bool.and_eq_true, decide_eq_true_eq] at h
+  exact List.suffix_iff_eq_drop.mpr h.2.symm
+
+/-- `&E` is not at the end of `…[&E]` -/
+theorem not_endsWith_anc (X E : Str) : endsWith (X ++ '[' :: '&' :: (E ++ [']'])) ('&' :: E) = false := by
+  cases h : endsWith (X ++ '[' :: '&' :: (E ++ [']'])) ('&' :: E) with
+  | false => rfl
+  | true =>
+    obtain ⟨p, hp⟩ := suffix_of_endsWith h
+    have h2 : p ++ '&' :: E = (X ++ ['[', '&']) ++ (E ++ [']']) := by simpa using hp
+    have := List.append_inj_right' h2 (by simp)
+    exact absurd this (cons_ne_concat '&' ']' (by decide) E)
+
+/-- nor is `.&E` -/
+theorem not_endsWith_dot_anc (X E : Str) :
+    endsWith (X ++ '[' :: '&' :: (E ++ [']'])) ('.' :: '&' :: E) = false := by
+  cases h : endsWith (X ++ '[' :: '&' :: (E ++ [']'])) ('.' :: '&' :: E) with
+  | false => rfl
+  | true =>
+    obtain ⟨p, hp⟩ := suffix_of_endsWith h
+    have h2 : p ++ '.' :: '&' :: E = (X ++ ['[']) ++ ('&' :: (E ++ [']'])) := by simpa using hp
+    have := List.append_inj_right' h2 (by simp)
+    simp at this
+
+/-- the library's rendering of a popped anchor segment: `&name` (escaped as in the section) -/
+theorem render_last_anc (a : Str) (hs : (Sec.anc a).ok = true) :
+    render false [(Sec.anc a).lseg.seg false] = '&' :: tokText (secToks '.' a) := by
+  have hp := plain_sec (.anc a) hs
+  have h1 : renderSeg '.' false ((Sec.anc a).lseg.seg false) = (remark1 '.' false (Sec.anc a).lseg).text '.' false :=
+    render_seg (Or.inl rfl) false (Sec.anc a).lseg hp.wf hp.ok
+  simp only [render, Bool.false_eq_true, ↓reduceIte, renderFrom, List.append_nil, h1]
+  simp [Sec.lseg, remark1, remarkT_secToks, LSeg.text, sepIf]
+
+theorem mtext_anc (a : Str) : (Sec.anc a).mtext = '[' :: '&' :: (tokText (secToks '.' a) ++ [']']) := by
+  rw [mtext_lseg]; simp [Sec.lseg, LSeg.text]
+
+/-- **`pop()` past an anchor section** (after 8d0a378): it returns the anchor segment and leaves the
+rendering of the steps before — their canonical string, what `str()` of the path accumulated for
+those steps is. -/
+theorem pop_section_anc (s0 : Sec) (r : List Sec) (a : Str)
+    (hok : ∀ x ∈ s0 :: (r ++ [Sec.anc a]), x.ok = true) :
+    C08.popView (accObj ((s0 :: (r ++ [Sec.anc a])).map Sec.mtext)) =
+      .ok ((Sec.anc a).lseg.seg false,
+        normOriginal (render false (((s0 :: r).map Sec.lseg).map (LSeg.seg false)))) := by
+  obtain ⟨hacc, hn, hs, hu⟩ := raw_steps s0 (r ++ [Sec.anc a]) hok
+  have hsok : (Sec.anc a).ok = true := hok _ (by simp)
+  rw [hacc]
+  have ht : joinText ((s0 :: (r ++ [Sec.anc a])).map Sec.mtext) =
+      (joinText ((s0 :: r).map Sec.mtext) ++ ['.']) ++ '[' :: '&' :: (tokText (secToks '.' a) ++ [']']) := by
+    have := joinText_snoc s0.mtext (r.map Sec.mtext) (Sec.anc a).mtext
+    simp only [List.map_cons, List.map_append, List.map_nil]
+    rw [this, mtext_anc]
+    simp
+  have hlist : List.map (LSeg.seg false) (List.map Sec.lseg (s0 :: (r ++ [Sec.anc a]))) =
+      List.map (LSeg.seg false) (List.map Sec.lseg (s0 :: r)) ++ [(Sec.anc a).lseg.seg false] := by simp
+  have hd : (List.map (LSeg.seg false) (List.map Sec.lseg (s0 :: (r ++ [Sec.anc a])))).dropLast =
+      List.map (LSeg.seg false) (List.map Sec.lseg (s0 :: r)) := by
+    rw [hlist, List.dropLast_concat]
+  rw [← hd]
+  apply C08.pop_respelled false _ hn (by simpa using hs) _ _ hu
+  · rw [hlist, List.getLast?_concat]
+  · rw [render_last_anc a hsok, ht]; exact not_endsWith_dot_anc _ _
+  · rw [render_last_anc a hsok, ht]; exact not_endsWith_anc _ _
+  · intro h; cases h
+
+/-- `str()` of the path accumulated for a non-empty list of good steps is the rendering of its
+unescaped segments -/
+theorem reported_render (c : Ctx) (s : Sec) (r : List Sec) (hpath : c.path = (s :: r).map Sec.mtext)
+    (hok : ∀ x ∈ s :: r, x.ok = true) :
+    reported c = .ok (render false (((s :: r).map Sec.lseg).map (LSeg.seg false))) := by
+  obtain ⟨hacc, hn, hs, hu⟩ := raw_steps s r hok
+  obtain ⟨p, hp⟩ := C08.str_new false _ _ hn (by simpa using hs) hu (by simp)
+  unfold reported strOf
+  rw [hpath, hacc, hp]
+
+/-- the repaired behaviour on the former C02-K5 witnesses: `YAMLPath("a") + "[&x]"`, then `pop()`: the
+text is `a` again; the very first section `[&x]` alone leaves the empty path.  (Before 8d0a378 the
+texts stayed `a.[&x]` and `[&x]`.) -/
+example : C08.popView (accObj [['a'], "[&x]".toList]) = .ok ((.anchor, .str ['x']), "a".toList) := by
   decide +kernel
-example : C08.popView (accObj ["[&x]".toList]) = .ok ((.anchor, .str ['x']), "[&x]".toList) := by
+example : C08.popView (accObj ["[&x]".toList]) = .ok ((.anchor, .str ['x']), []) := by
   decide +kernel
 /-- … while key and index sections are (instances of `pop_section`, and the first-section case) -/
 example : C08.popView (accObj [['a'], "[0]".toList]) = .ok ((.index, .int 0), ['a']) := by decide +kernel
